@@ -382,8 +382,87 @@ func c10Directed(c *core.Ctx) bool {
 			return false
 		}
 	}
-	c.Count("directed_path_scenarios", 5)
+	// Go struct records that reach a struct schema inside a JSON execution (items of a slice Default while the list is absent from the
+	// document): their issues are keyed by the source tag like everything else in that execution
+	type lineItem struct {
+		Name string `json:"full_name" zog:"zname"`
+		Qty  int    `json:"quantity"`
+	}
+	type orderDoc struct {
+		Customer string     `json:"customer_name"`
+		Items    []lineItem `json:"line_items"`
+	}
+	osch := z.Struct(z.Schema{"customer": z.String().Required(), "items": z.Slice(z.Struct(z.Schema{"name": z.String().Required(), "qty": z.Int().Required()})).Default([]lineItem{{}})})
+	var od orderDoc
+	m := osch.Parse(zjson.Decode(strings.NewReader(`{"other":1}`)), &od)
+	c.Eval(1)
+	if got := keysOf(m); got != "customer_name, line_items[0].full_name, line_items[0].quantity" {
+		c.Violation("issue-paths|struct-record-inside-a-json-execution", map[string]any{"schema": "{customer: Required, items: Slice(Struct{name: Required, qty: Required}).Default([]lineItem{{}})}; lineItem{Name `json:full_name zog:zname`; Qty `json:quantity`}", "document": `{"other":1}`, "keys": got, "want": "customer_name, line_items[0].full_name, line_items[0].quantity"})
+		return false
+	}
+	// an IssuePath is taken literally, also when it looks like a repeated form parameter
+	var tags []string
+	m = z.Slice(z.String().Min(3, z.IssuePath("tags[]"))).Parse([]any{"a", "long enough", "b"}, &tags)
+	tv := []string{"a", "long enough", "b"}
+	m2 := z.Slice(z.String().Min(3, z.IssuePath("tags[]"))).Validate(&tv)
+	c.Eval(2)
+	if keysOf(m) != "tags[]" || len(m["tags[]"]) != 2 || keysOf(m2) != "tags[]" || len(m2["tags[]"]) != 2 {
+		c.Violation("issue-paths|IssuePath-with-brackets", map[string]any{"schema": "Slice(String().Min(3, IssuePath(\"tags[]\")))", "input": "[a, long enough, b]", "keys_parse": keysOf(m), "keys_validate": keysOf(m2), "want": "both failing items under the one key tags[]"})
+		return false
+	}
+	// SanitizeMap / SanitizeList mirror the issue map: same keys, same number of entries in the same order, whatever the messages are
+	silent := z.WithIssueFormatter(func(e *z.ZogIssue, ctx z.Ctx) {
+		if e.Code == "min" {
+			e.SetMessage("too short")
+		}
+	})
+	var em string
+	type acc struct{ Email, Name string }
+	var ac acc
+	m = z.Struct(z.Schema{"email": z.String().Min(5).Email().Contains("@"), "name": z.String().Required()}).Parse(map[string]any{"email": "ab"}, &ac, silent)
+	san := z.Issues.SanitizeMap(m)
+	li := z.String().Email().Min(5).HasPrefix("x").Parse("ab", &em, silent)
+	sl := z.Issues.SanitizeList(li)
+	c.Eval(2)
+	bad := len(san) != len(m) || len(sl) != len(li)
+	for k, l := range m {
+		if len(san[k]) != len(l) {
+			bad = true
+			continue
+		}
+		for i := range l {
+			if san[k][i] != l[i].Message {
+				bad = true
+			}
+		}
+	}
+	for i := range sl {
+		if i < len(li) && sl[i] != li[i].Message {
+			bad = true
+		}
+	}
+	if bad {
+		c.Violation("sanitize-differs-from-issue-map|empty-messages", map[string]any{"formatter": "an execution formatter that only words the code min and leaves the other messages empty", "issue_map_keys_and_lengths": fmt.Sprint(lens(m)), "sanitized": fmt.Sprint(san), "issue_list_messages": msgs(li), "sanitized_list": sl})
+		return false
+	}
+	c.Count("directed_path_scenarios", 10)
 	return true
+}
+
+func lens(m z.ZogIssueMap) map[string]int {
+	o := map[string]int{}
+	for k, l := range m {
+		o[k] = len(l)
+	}
+	return o
+}
+
+func msgs(l z.ZogIssueList) []string {
+	var o []string
+	for _, e := range l {
+		o = append(o, e.Message)
+	}
+	return o
 }
 
 func (c10) RunCase(c *core.Ctx) {
